@@ -4,7 +4,9 @@ stdin: {"qual": ..., "args": ...}                      -> one case
        {"qual": ..., "gen": N, "seed": s, "limit_s": t} -> N generated cases (bounded stand-in)
 stdout (last line): JSON {"ok": bool|None, "detail": ..., "evaluations": n, "failures": [...]}
 """
+import contextlib
 import importlib
+import io
 import json
 import os
 import random
@@ -44,7 +46,8 @@ def main():
     if "args" in req:
         signal.alarm(per_case)
         try:
-            ok, detail = nat.check(req["args"])
+            with contextlib.redirect_stdout(io.StringIO()):
+                ok, detail = nat.check(req["args"])
             out = {"ok": bool(ok), "detail": jsonable(detail), "evaluations": 1}
         except _Timeout:
             out = {"ok": False, "detail": f"timeout after {per_case}s", "timeout": True, "evaluations": 1}
@@ -70,7 +73,8 @@ def main():
             samples.append(jsonable(args))
         signal.alarm(per_case)
         try:
-            ok, detail = nat.check(args)
+            with contextlib.redirect_stdout(io.StringIO()):
+                ok, detail = nat.check(args)
         except _Timeout:
             ok, detail = False, f"timeout after {per_case}s"
         except Exception:
